@@ -70,6 +70,8 @@ class Harness:
             s = summarize(fn)
 
             def w(*a):
+                if not any(is_symbolic(x) for x in a):
+                    return fn(*a)
                 ex = EX()
                 n0 = len(ex.deferred)
                 r = s(*a)
@@ -80,6 +82,9 @@ class Harness:
                 return r
             return w
         for k in ("decode_number", "decode_float", "decode_time", "decode_date"):
+            ns[k] = logged(k, self.real[k])
+        for k in ("encode_number", "encode_float", "encode_time", "encode_date"):
+            self.real[k] = getattr(U, k)
             ns[k] = logged(k, self.real[k])
 
         def bit_lookup(raw, table):
